@@ -55,24 +55,24 @@ func genC07(t *rapid.T) c07Case {
 			return rapid.IntRange(1, c.Cap).Draw(t, label)
 		}
 	}
-	n := rapid.IntRange(1, 80).Draw(t, "nsteps")
-	for i := 0; i < n; i++ {
+	stepGen := rapid.Custom(func(t *rapid.T) c07Step {
 		k := rapid.IntRange(0, keys-1).Draw(t, "k")
 		switch op := rapid.IntRange(0, 19).Draw(t, "op"); {
 		case op < 8:
-			c.Steps = append(c.Steps, c07Step{Op: "set", K: k, W: cost("w")})
+			return c07Step{Op: "set", K: k, W: cost("w")}
 		case op < 12:
-			c.Steps = append(c.Steps, c07Step{Op: "access", K: k})
+			return c07Step{Op: "access", K: k}
 		case op < 15:
-			c.Steps = append(c.Steps, c07Step{Op: "update", K: k, W: cost("w")})
+			return c07Step{Op: "update", K: k, W: cost("w")}
 		case op < 17:
-			c.Steps = append(c.Steps, c07Step{Op: "remove", K: k})
+			return c07Step{Op: "remove", K: k}
 		case op < 19:
-			c.Steps = append(c.Steps, c07Step{Op: "sample", R: rapid.IntRange(0, 100).Draw(t, "r")})
+			return c07Step{Op: "sample", R: rapid.IntRange(0, 100).Draw(t, "r")}
 		default:
-			c.Steps = append(c.Steps, c07Step{Op: "freq", K: k, W: rapid.IntRange(1, 15).Draw(t, "n")})
+			return c07Step{Op: "freq", K: k, W: rapid.IntRange(1, 15).Draw(t, "n")}
 		}
-	}
+	})
+	c.Steps = rapid.SliceOfN(stepGen, 1, 80).Draw(t, "steps")
 	return c
 }
 
